@@ -255,7 +255,7 @@ class MetadataGenerator:
 
 
         if len(types) > 1:
-            if Unknown in types:
+            if Unknown in types and any(t is not Unknown and t is not Null for t in types):
                 types.remove(Unknown)
 
             optional = False
